@@ -866,4 +866,14 @@ theorem C01_lex_guard_never_rejects (cs : List Char) : lexOne cs = none ↔ lexL
     unfold lexOne
     rw [h]
 
+/-- The remaining operators and punctuation marks of statements are self-delimiting too. -/
+theorem Delim_ops_stmt :
+    Delim ⟨.assign, [':', '=']⟩ ∧ Delim ⟨.pluseq, ['+', '=']⟩ ∧ Delim ⟨.minuseq, ['-', '=']⟩ ∧
+    Delim ⟨.muleq, ['*', '=']⟩ ∧ Delim ⟨.diveq, ['/', '=']⟩ ∧ Delim ⟨.lsq, ['[']⟩ ∧ Delim ⟨.rsq, [']']⟩ ∧
+    Delim ⟨.lbrace, ['{']⟩ ∧ Delim ⟨.rbrace, ['}']⟩ ∧ Delim ⟨.semi, [';']⟩ ∧ Delim ⟨.dot, ['.']⟩ := by
+  refine ⟨?_, ?_, ?_, ?_, ?_, ?_, ?_, ?_, ?_, ?_, ?_⟩ <;>
+    exact ⟨fun rest => by
+      simp [lexOne, lexLen, isWs, isNameStart, Char.isAlpha, Char.isUpper, Char.isLower, Char.isDigit,
+        fracLen, digitsLen], by decide⟩
+
 end GV.Props.C01l
